@@ -53,7 +53,8 @@ PROPS = {
             "level": "proof"},
     "C02": {"targets": [LANM + "_Packet._timestamp", LANM + "_Packet.encode", LANM + "_Packet.decode", LANM + "_Packet.decode#interop"],
             "level": "proof"},
-    "C03": {"targets": [LANM + "_Packet.decode", LANM + "_Packet.decode#truncated", LANM + "_Packet.decode#interop"],
+    "C03": {"targets": [LANM + "_Packet.decode", LANM + "_Packet.decode#truncated", LANM + "_Packet.decode#interop",
+                        LANM + "_Packet.decode#signature_tamper", LANM + "_Packet.decode#marker_tamper"],
             "level": "proof"},
     "C04": {"targets": [V3 + ".data_received", V3 + ".read"], "level": "proof"},
     "C05": {"targets": [V3 + "._encode_encrypted_request", V3 + "._decode_encrypted_response", V3 + "._process_packet",
@@ -81,7 +82,7 @@ PROPS = {
                                        CMD + "GetPropertiesCommand.__init__", CMD + "GetPropertiesCommand.tobytes",
                                        CMD + "PropertyId.encode"],
             "level": "proof"},
-    "C13": {"targets": ["msmart.frame.Frame.validate", "msmart.frame.Frame.checksum", "msmart.crc8.calculate", "crc8.table", "crc8.step_range",
+    "C13": {"targets": ["C13.sum_split.base", "C13.sum_split.step", "C13.single_byte_corruption_is_rejected", "msmart.frame.Frame.validate", "msmart.frame.Frame.checksum", "msmart.crc8.calculate", "crc8.table", "crc8.step_range",
                         CMD + "Response.validate", CMD + "Response.construct",
                         AC + "._send_command_get_responses", AC + ".refresh#no_valid_response",
                         AC + "._update_state#other", AC + "._update_state#props"],
@@ -100,7 +101,7 @@ PROPS = {
                         AC + ".breeze_away!setter", AC + ".breezeless!setter", AC + ".breeze_mild!setter", AC + ".ieco!setter",
                         AC + ".rate_select!setter", AC + ".horizontal_swing_angle!setter", AC + ".vertical_swing_angle!setter",
                         CMD + "SetPropertiesCommand.__init__", CMD + "SetPropertiesCommand.tobytes",
-                        (AC + ".apply", r"c16\.|noraise|call\."), AC + "._apply_properties", AC + ".start_self_clean",
+                        (AC + ".apply", r"c16\.|noraise|call\."), AC + ".apply#quiet_device", AC + "._apply_properties", AC + ".start_self_clean",
                         (AC + "._update_capabilities", r"props\.|noraise"), AC + "._update_state#props"],
             "level": "proof"},
 }
